@@ -220,6 +220,9 @@ pub fn subjects() -> Vec<Subject> {
         // packed prefilter with a pattern inside another: an earliest search
         // may legitimately return either occurrence, but always the same one
         Subject { name: "lf-dfa-packed-overlap", pats: vec![b("abcd"), b("bc"), b("xyz"), b("qrs")], mk: Kind::LF, kind: DFA, ci: false },
+        // a state with four matches (match lists are linked lists in the
+        // noncontiguous NFA and are walked by index in overlapping searches)
+        Subject { name: "std-nnfa-suffixes", pats: vec![b("abcd"), b("bcd"), b("cd"), b("d")], mk: Kind::Std, kind: NoncontiguousNFA, ci: false },
     ]
 }
 
@@ -831,19 +834,18 @@ pub fn sched_child(tier: &str, c: usize, n: usize) -> i32 {
     0
 }
 
-/// Every interleaving of steps on three live cursors sharing the searcher.
+/// Every interleaving of steps on four live cursors sharing the searcher
+/// (the fourth through a clone, which shares the automaton).
 fn cursor_interleavings(rep: &Report, st: &mut Stats, s: &Subject, steps: usize) {
     let ac = s.build();
+    let ac2 = ac.clone();
     let [dense, sparse, _] = s.hays();
     let fm = |m: aho_corasick::Match| format!("({},{},{})", m.pattern().as_usize(), m.start(), m.end());
-    // sequential expectations (fresh searcher, one cursor at a time)
-    let fresh = s.build();
-    let exp_a: Vec<String> = fresh.find_iter(&dense).take(steps).map(fm).collect();
-    let exp_b: Vec<String> = {
+    let ov_steps = |a: &AhoCorasick, h: &[u8], n: usize| -> Vec<String> {
         let mut stt = OverlappingState::start();
         let mut v = vec![];
-        for _ in 0..steps {
-            if fresh.try_find_overlapping(&sparse, &mut stt).is_err() {
+        for _ in 0..n {
+            if a.try_find_overlapping(h, &mut stt).is_err() {
                 break;
             }
             match stt.get_match() {
@@ -853,32 +855,31 @@ fn cursor_interleavings(rep: &Report, st: &mut Stats, s: &Subject, steps: usize)
         }
         v
     };
+    // sequential expectations (fresh searcher, one cursor at a time)
+    let fresh = s.build();
+    let exp_a: Vec<String> = fresh.find_iter(&dense).take(steps).map(fm).collect();
+    let exp_b: Vec<String> = ov_steps(&fresh, &sparse, steps);
     let exp_c: Vec<String> = match fresh.try_stream_find_iter(&dense[..]) {
         Err(_) => vec![],
-        Ok(it) => it.take(steps).map(|x| x.map(fm).unwrap_or_else(|e| e.to_string())).collect(),
+        Ok(it) => it.take(steps - 1).map(|x| x.map(fm).unwrap_or_else(|e| e.to_string())).collect(),
     };
-    // enumerate all interleavings of (na, nb, nc) steps
-    let (na, nb, nc) = (exp_a.len(), exp_b.len(), exp_c.len());
+    let exp_d: Vec<String> = ov_steps(&fresh, &dense, steps);
+    // enumerate all interleavings of (na, nb, nc, nd) steps
+    let n = [exp_a.len(), exp_b.len(), exp_c.len(), exp_d.len()];
     let mut order: Vec<u8> = vec![];
-    fn rec(order: &mut Vec<u8>, a: usize, b2: usize, c: usize, f: &mut dyn FnMut(&[u8])) {
-        if a == 0 && b2 == 0 && c == 0 {
+    fn rec(order: &mut Vec<u8>, left: &mut [usize; 4], f: &mut dyn FnMut(&[u8])) {
+        if left.iter().all(|&x| x == 0) {
             f(order);
             return;
         }
-        if a > 0 {
-            order.push(0);
-            rec(order, a - 1, b2, c, f);
-            order.pop();
-        }
-        if b2 > 0 {
-            order.push(1);
-            rec(order, a, b2 - 1, c, f);
-            order.pop();
-        }
-        if c > 0 {
-            order.push(2);
-            rec(order, a, b2, c - 1, f);
-            order.pop();
+        for w in 0..4 {
+            if left[w] > 0 {
+                left[w] -= 1;
+                order.push(w as u8);
+                rec(order, left, f);
+                order.pop();
+                left[w] += 1;
+            }
         }
     }
     let mut run_one = |order: &[u8]| {
@@ -886,7 +887,8 @@ fn cursor_interleavings(rep: &Report, st: &mut Stats, s: &Subject, steps: usize)
             let mut ita = ac.find_iter(&dense);
             let mut stb = OverlappingState::start();
             let mut itc = ac.try_stream_find_iter(&dense[..]).ok();
-            let (mut ga, mut gb, mut gc) = (vec![], vec![], vec![]);
+            let mut std = OverlappingState::start();
+            let (mut ga, mut gb, mut gc, mut gd) = (vec![], vec![], vec![], vec![]);
             for &w in order {
                 match w {
                     0 => ga.push(ita.next().map(fm).unwrap_or_else(|| "None".into())),
@@ -894,19 +896,23 @@ fn cursor_interleavings(rep: &Report, st: &mut Stats, s: &Subject, steps: usize)
                         let _ = ac.try_find_overlapping(&sparse, &mut stb);
                         gb.push(stb.get_match().map(fm).unwrap_or_else(|| "None".into()));
                     }
-                    _ => gc.push(match itc.as_mut().and_then(|it| it.next()) {
+                    2 => gc.push(match itc.as_mut().and_then(|it| it.next()) {
                         Some(Ok(m)) => fm(m),
                         Some(Err(e)) => e.to_string(),
                         None => "None".into(),
                     }),
+                    _ => {
+                        let _ = ac2.try_find_overlapping(&dense, &mut std);
+                        gd.push(std.get_match().map(fm).unwrap_or_else(|| "None".into()));
+                    }
                 }
             }
-            (ga, gb, gc)
+            (ga, gb, gc, gd)
         }));
         st.add("cursor_interleavings", 1);
         st.add("cursor_steps", order.len() as u64);
         let ok = match &r {
-            Ok((ga, gb, gc)) => *ga == exp_a && *gb == exp_b && *gc == exp_c,
+            Ok((ga, gb, gc, gd)) => *ga == exp_a && *gb == exp_b && *gc == exp_c && *gd == exp_d,
             Err(_) => false,
         };
         if !ok {
@@ -915,14 +921,15 @@ fn cursor_interleavings(rep: &Report, st: &mut Stats, s: &Subject, steps: usize)
                 what: "cursor-interference".into(),
                 case: case(s, "cursors", &order.iter().map(|&x| x as usize).collect::<Vec<_>>(), &[]),
                 detail: format!(
-                    "{} {}: stepping a FindIter (0), an OverlappingState (1) and a stream iterator (2) in the order {:?} gave {:?}; each alone gives {:?} / {:?} / {:?}",
-                    s.name, pats_show(&s.pats), order, r.map_err(|p| crate::aut::panic_msg(&p)), exp_a, exp_b, exp_c
+                    "{} {}: stepping a FindIter (0), an OverlappingState (1), a stream iterator (2) and an OverlappingState on a clone (3) in the order {:?} gave {:?}; each alone gives {:?} / {:?} / {:?} / {:?}",
+                    s.name, pats_show(&s.pats), order, r.map_err(|p| crate::aut::panic_msg(&p)), exp_a, exp_b, exp_c, exp_d
                 ),
                 tags: vec![("subject".into(), s.name.into())],
             });
         }
     };
-    rec(&mut order, na, nb, nc, &mut run_one);
+    let mut left = n;
+    rec(&mut order, &mut left, &mut run_one);
 }
 
 pub fn replay(case: &J) -> i32 {
